@@ -1,7 +1,117 @@
-(* C04 - placeholder while the proofs are integrated; replaced by the final statements *)
-From Spl Require Import Spec.Grammar Model.Parser.
+(* C04 - the syntax tree is the derivation the SPL grammar mandates.
+
+   Spec/Grammar.v: abstract syntax whose shape is the derivation (precedence levels and left-nested operator
+   chains by construction, a comment slot in front of every token), `flatten` (token kinds in source order),
+   `expected` (the spl_frontend tree with every range and Reference offset computed from flatten lengths, no
+   errors), `prog_ok` (no dangling-else shape: the then-branch of an if-with-else does not end in an open if).
+   Model/Parser.v: the parser.  Statements only; proofs in Proofs/Grammar*.v. *)
+From Spl Require Import Spec.Grammar Model.Parser Proofs.GrammarProofs.
+
+(* For ALL abstract programs, with comments in any token gap: on any token vector whose kinds are the
+   program's tokens followed by Eof, the parser (with its own fuel) returns exactly the mandated tree. *)
+Theorem C04_roundtrip : forall p toks,
+  prog_ok p = true -> map tk toks = flatten p ++ [Eof] -> parse toks = Done (expected p).
+Proof. exact roundtrip. Qed.
+Print Assumptions C04_roundtrip.
+
+(* no syntax diagnostic: no error attached to any node, no error node, no missing child *)
+Theorem C04_no_syntax_diag : forall p toks,
+  prog_ok p = true -> map tk toks = flatten p ++ [Eof] -> exists t, parse toks = Done t /\ tree_clean t = true.
+Proof. exact no_syntax_diag. Qed.
+Print Assumptions C04_no_syntax_diag.
+
+(* every node's range is [index of its first leading comment, + the number of its own tokens), relative to
+   the enclosing Reference; declarations are References at the absolute index of their first token *)
+Theorem C04_ranges_exact : forall p toks,
+  prog_ok p = true -> map tk toks = flatten p ++ [Eof] ->
+  exists t, parse toks = Done t /\
+    span (pg_info t) 0 (length (flat_map fl_decl (a_decls p))) /\
+    (forall i d, nth_error (a_decls p) i = Some d ->
+       exists g, nth_error (pg_decls t) i = Some (g, length (flat_map fl_decl (firstn i (a_decls p)))) /\
+                 g = x_decl d /\ span (gdecl_info g) 0 (length (fl_decl d))) /\
+    (forall o v, span (var_info (x_var o v)) o (length (fl_var v))) /\
+    (forall o e, span (expr_info (x_cmp o e)) o (length (fl_cmp e))) /\
+    (forall o a, span (expr_info (x_add o a)) o (length (fl_add a))) /\
+    (forall o m, span (expr_info (x_mul o m)) o (length (fl_mul m))) /\
+    (forall o f, span (expr_info (x_fac o f)) o (length (fl_fac f))) /\
+    (forall o ty, span (texpr_info (x_type o ty)) o (length (fl_type ty))) /\
+    (forall o s, span (stmt_info (x_stmt o s)) o (length (fl_stmt s))) /\
+    (forall q, span (paramdecl_info (x_param q)) 0 (length (fl_param q))) /\
+    (forall v, span (vardecl_info (x_vardecl v)) 0 (length (fl_vardecl v))).
+Proof. exact ranges_exact. Qed.
+Print Assumptions C04_ranges_exact.
+
+(* the parser sees token kinds only: byte ranges / lexical error lists of the tokens (all that a layout
+   changes once the kinds are fixed) do not influence the tree *)
+Theorem C04_layout_independent : forall p toks1 toks2,
+  prog_ok p = true -> map tk toks1 = flatten p ++ [Eof] -> map tk toks2 = map tk toks1 -> parse toks2 = parse toks1.
+Proof. exact layout_independent. Qed.
+Print Assumptions C04_layout_independent.
+
+(* ... and that holds for EVERY token vector, syntactically valid or not: `parse` is a function of `map tk toks` *)
+Theorem C04_parser_sees_kinds_only : forall toks1 toks2,
+  map tk toks2 = map tk toks1 -> parse toks2 = parse toks1.
+Proof. exact layout_independent_all. Qed.
+Print Assumptions C04_parser_sees_kinds_only.
+
+(* ---- non-vacuity ---- *)
+Open Scope N_scope.
 Definition mktok (k : kind) : token := {| tk := k; ts := 0; te := 0; terr := [] |}.
-Definition p0 : aprog := {| a_decls := [DProc [] [] [109] [] None [] [] [] (SCons (SEmp [[32]]) SNil) []]; a_ceof := [[33]] |}.
-Theorem C04_witness : parse (map mktok (flatten p0 ++ [Eof])) = Done (expected p0).
+Definition c0 : cs := [].
+Definition c1 : cs := [[32; 110; 111; 116; 101]].              (* // note *)
+Definition c2 : cs := [[]; [47; 47; 32; 120]].                 (* //  and  //// x *)
+Definition nm (s : text) := AName c0 s.
+Definition fv (s : text) := FVar (nm s).
+Definition lit n := FLit c0 (LDec n).
+Definition e_f f := CAdd (AMul (MFac f)).
+(* a - b - c * -(-d) / 2 < (1 = 'x')   with comments in odd gaps *)
+Definition ex_e : acmp :=
+  CBin (ABin (ABin (AMul (MFac (fv [97]))) c1 AMinus (MFac (FVar (AName c2 [98])))) c0 AMinus
+             (MBin (MBin (MFac (fv [99])) c1 MTimes (FNeg c2 (FPar c1 (e_f (FNeg c0 (fv [100]))) c2))) c0 MDivide (lit 2)))
+       c2 CLt (AMul (MFac (FPar c0 (CBin (AMul (MFac (FLit c1 (LHex 255)))) c1 CEq (AMul (MFac (FLit c2 (LChr 120))))) c0))).
+(* v[i+1][j] := e; *)
+Definition ex_v : avar :=
+  AIndex (AIndex (AName c2 [118]) c1 (CAdd (ABin (AMul (MFac (fv [105]))) c1 APlus (MFac (lit 1)))) c2) c0 (e_f (fv [106])) c1.
+Definition ex_s1 := SAsg ex_v c1 ex_e c2.
+(* if (e) if (e) ; else while (e) f(e, 1);    - the else belongs to the inner if *)
+Definition ex_s2 :=
+  SIfT c1 c2 ex_e c1 (SIfE c0 c1 ex_e c2 (SEmp c1) c2 (SWhl c1 c2 ex_e c0 (SCal c1 [102] c2 (Some (ex_e, [(c1, e_f (lit 1))])) c1 c2))).
+(* if (e) { } else if (e) s1 else { s2 } *)
+Definition ex_s3 :=
+  SIfE c0 c0 ex_e c0 (SBlk c1 SNil c2) c1 (SIfE c0 c0 ex_e c0 ex_s1 c2 (SBlk c0 (SCons ex_s2 SNil) c1)).
+Definition ex_t := TArr c1 c2 c0 (LDec 3) c1 c2 (TArr c0 c0 c1 (LHex 16) c0 c0 (TName c2 [105; 110; 116])).
+Definition ex_p : aprog :=
+  {| a_decls :=
+       [ DType c2 c1 [116] c1 ex_t c2;
+         DProc c1 c2 [112] c1 (Some (PVal c2 [97] c1 ex_t, [(c1, PRef c2 c1 [98] c2 (TName c0 [116]))])) c1 c2
+           [ {| v_c1 := c2; v_c2 := c1; v_x := [118]; v_c3 := c1; v_t := ex_t; v_c4 := c2 |} ]
+           (SCons ex_s1 (SCons ex_s2 (SCons ex_s3 SNil))) c2;
+         DProc c0 c0 [109; 97; 105; 110] c0 None c0 c0 [] SNil c0 ];
+     a_ceof := c2 |}.
+
+(* the hypotheses are satisfiable, the instance is large (several hundred tokens) ... *)
+Example C04_ex_ok : prog_ok ex_p = true /\ (200 <? N.of_nat (length (flatten ex_p))) = true.
+Proof. vm_compute. split; reflexivity. Qed.
+(* ... and the conclusion is what the model computes (evaluated, independently of the theorem) *)
+Example C04_ex_parse : parse (map mktok (flatten ex_p ++ [Eof])) = Done (expected ex_p).
 Proof. vm_compute. reflexivity. Qed.
-Print Assumptions C04_witness.
+Example C04_ex_instance : parse (map mktok (flatten ex_p ++ [Eof])) = Done (expected ex_p).
+Proof. apply C04_roundtrip; [vm_compute; reflexivity | now rewrite map_map, map_id]. Qed.
+
+(* `expected` discriminates: the other bracketing of a - b - c is a different tree, and prog_ok is needed:
+   for the dangling-else shape excluded by it the parser does NOT return the tree of the abstract program *)
+Definition sub3_left := ABin (ABin (AMul (MFac (fv [97]))) c0 AMinus (MFac (fv [98]))) c0 AMinus (MFac (fv [99])).
+Definition sub3_right := ABin (AMul (MFac (fv [97]))) c0 AMinus (MFac (FPar c0 (CAdd (ABin (AMul (MFac (fv [98]))) c0 AMinus (MFac (fv [99])))) c0)).
+Example C04_left_assoc :
+  x_add 0 sub3_left = EBin OSub (EBin OSub (EVar (NamedVar (x_ident 0 c0 [97]))) (EVar (NamedVar (x_ident 2 c0 [98]))) (mkinfo 0 3))
+                                (EVar (NamedVar (x_ident 4 c0 [99]))) (mkinfo 0 5)
+  /\ fl_add sub3_left <> fl_add sub3_right.
+Proof. split; [reflexivity | discriminate]. Qed.
+
+Definition ex_dangling : aprog :=
+  {| a_decls := [DProc c0 c0 [109] c0 None c0 c0 []
+                   (SCons (SIfE c0 c0 (e_f (fv [97])) c0 (SIfT c0 c0 (e_f (fv [98])) c0 (SEmp c0)) c0 (SEmp c0)) SNil) c0];
+     a_ceof := c0 |}.
+Example C04_prog_ok_needed :
+  prog_ok ex_dangling = false /\ parse (map mktok (flatten ex_dangling ++ [Eof])) <> Done (expected ex_dangling).
+Proof. split; [reflexivity|]. vm_compute. discriminate. Qed.
